@@ -97,7 +97,7 @@ func muted(ins []sim.InSpec, x sim.InSpec) bool {
 	return false
 }
 
-func genOps(t *rapid.T, label string, lo, hi, maxMs int) []ExtOp {
+func GenOps(t *rapid.T, label string, lo, hi, maxMs int) []ExtOp {
 	ops := rapid.SliceOfN(rapid.Custom(func(t *rapid.T) ExtOp {
 		return ExtOp{
 			AtMs: rapid.IntRange(0, maxMs).Draw(t, "at"),
@@ -209,8 +209,8 @@ func Gen(t *rapid.T) Plan {
 	}
 
 	p.Cached = rapid.SliceOfNDistinct(rapid.IntRange(0, 2), 0, 2, rapid.ID[int]).Draw(t, "cached")
-	p.Pre = genOps(t, "pre", 0, 6, 0)
-	p.Script = genOps(t, "script", 4, 40, 3000)
+	p.Pre = GenOps(t, "pre", 0, 6, 0)
+	p.Script = GenOps(t, "script", 4, 40, 3000)
 
 	if rapid.Bool().Draw(t, "grid") {
 		for i := range p.Script {
@@ -233,7 +233,7 @@ func Run(p Plan) (v hk.Verdict) {
 	return v
 }
 
-func apply(ctx context.Context, st state.State, op ExtOp, n int) {
+func Apply(ctx context.Context, st state.State, op ExtOp, n int) {
 	typ, id := types[op.Typ], ids[op.ID]
 	ptr := resource.NewMetadata("n1", typ, id, resource.VersionUndefined)
 
@@ -293,7 +293,7 @@ func runBubble(p Plan) (v hk.Verdict) {
 	ext := state.WrapCore(w.Ext)
 
 	for i, op := range p.Pre {
-		apply(w.Ctx, ext, op, 1000+i)
+		Apply(w.Ctx, ext, op, 1000+i)
 	}
 
 	preLen := w.NCommits()
@@ -360,7 +360,7 @@ func runBubble(p Plan) (v hk.Verdict) {
 		if e.reg >= 0 {
 			register(e.reg)
 		} else {
-			apply(w.Ctx, ext, e.op, e.n)
+			Apply(w.Ctx, ext, e.op, e.n)
 		}
 	}
 
